@@ -502,8 +502,11 @@ func zzC12Version() {
 	zzSrv8 = env
 	stateless := vBool("stateless")
 	c := zzConnect(nil, stateless, false)
-	versions := []string{"", protocolVersion20250618, protocolVersion20251125, protocolVersion20260728}
-	hv := versions[vChoice("headerVersion", 4)]
+	versions := []string{"", protocolVersion20250618, protocolVersion20251125, protocolVersion20260728, protocolVersion20250326, protocolVersion20241105}
+	hv := versions[vChoice("headerVersion", 6)]
+	// the request may also arrive wrapped in a JSON-RPC batch (accepted only below 2025-06-18 — a version the *header*
+	// decides, absent = 2025-03-26 — while the era of a request is decided by its own _meta): alone or with a ping
+	batch := vChoice("batch", 3)
 	zzMetaPresent = vBool("metaHasVersion")
 	zzMetaVersion = versions[1+vChoice("metaVersion", 3)]
 	isDiscover := vBool("isDiscover")
@@ -524,8 +527,19 @@ func zzC12Version() {
 	}
 	req.Header.Set(methodHeader, method)
 	env.incomingBody = []jsonrpc.Message{hdr}
+	if batch > 0 {
+		env.isBatch = true
+		if batch == 2 {
+			env.incomingBody = []jsonrpc.Message{hdr, zzCall(2, "ping")}
+		}
+	}
 	c.servePOST(w, req)
 	accepted := env.hangs == 1
+	if batch > 0 && hv >= protocolVersion20250618 {
+		vAssert(!accepted && w.code == http.StatusBadRequest, "C02.batches-refused-from-2025-06-18-on")
+		vReach("end")
+		return
+	}
 	metaV := ""
 	if zzMetaPresent {
 		metaV = zzMetaVersion
